@@ -3,15 +3,21 @@
 
    Races of real Go programs live in package-level mutable state (caches, pools,
    lazily built tables) and in writes through pointers into shared structures.
-   tablegen (go/cmd/tablegen/pkgvars.go) enumerates from the non-test sources,
-   into Generated/PkgState.v,
+   tablegen (go/cmd/tablegen/pkgvars.go; the sources are type-checked with go/types) enumerates
+   from the non-test sources, into Generated/PkgState.v,
 
-     pkg_vars            every package-level variable with the kind of its initialiser
-     pkg_var_writes      every statement of a function body that writes to one (or takes its address)
+     pkg_vars            every package-level variable with the kind of its type / initialiser
+     pkg_var_writes      every statement of a function body that writes to one (or takes its address),
+                         directly, through a local alias, or by passing it to a function that writes
+                         through the corresponding parameter (callee-writes-through)
      pkg_var_methods     every method called directly on one
      shared_type_writes  every statement of soyhtml / soyjs / template that writes through a value of
                          a syntax-tree, registry, template or message-bundle type, or appends to a
-                         slice obtained from one
+                         slice obtained from one; and every call in these packages that passes such a
+                         value to a function or method of ANY package of the repository that may write
+                         through the corresponding parameter or receiver (callee-writes-through, the
+                         written expression is the callee; interface calls are resolved to every
+                         implementing type of the repository)
 
    Proofs/ConcGlobalsProofs.v proves, by computation on the generated lists,
    that they satisfy the predicates below.  The predicates are about KINDS, not
@@ -25,7 +31,8 @@
      a method on a package-level variable that is not one of the read-only
        methods of regexp / strings.Replacer / log.Logger seen at review time,
      a write through a shared type anywhere but in Registry.Add (or the capped
-       append of the repaired evalPrint)
+       append of the repaired evalPrint, or the one reviewed latent hazard,
+       [reviewed_latent_writes])
 
    breaks a proof obligation of C09 until it has been reviewed; the race
    harness is then the search for a failing schedule.  (The exact lists of the
@@ -92,8 +99,35 @@ Definition k_capped : bstr := Eval vm_compute in b "append-to-capped".
    bundle being compiled (own memory of the compiling goroutine until Compile returns), or an append to
    a slice cut with capacity = length (e[:n:n]: the append copies, the shared array is only read; the
    repaired evalPrint, 25f4246) *)
+Definition site_eqb (x y : bstr * bstr * bstr * bstr) : bool :=
+  let '(a1, b1, c1, d1) := x in let '(a2, b2, c2, d2) := y in
+  bstr_eqb a1 a2 && bstr_eqb b1 b2 && bstr_eqb c1 c2 && bstr_eqb d1 d2.
+Fixpoint site_mem (x : bstr * bstr * bstr * bstr) (l : list (bstr * bstr * bstr * bstr)) : bool :=
+  match l with [] => false | y :: r => site_eqb x y || site_mem x r end.
+
+(* REVIEWED LATENT HAZARD (found by the callee analysis of pkgvars.go; tolerated, not repaired: no input
+   reaches it).  ast.MsgNode.Placeholder, called by evalMsgParts of the renderer and of the JavaScript
+   generator, walks the message body with a queue that starts as n.Body.Children() -- for a ListNode that IS
+   the node's own Nodes slice, shared by every render -- and appends the children of every parent node that
+   is not a placeholder to it: q = append(q, node.Children()...).  Were there spare capacity behind the
+   queue, the append would write into the array of the shared slice.  There never is: the only parent node
+   that is not a placeholder in a message body is a plural node; the parser rejects a body that has a
+   plural node and anything else ("content not allowed outside plural tag", parse.go parseMsg), and
+   placeholderize builds that body by ONE append to a nil slice, so its length = its capacity = 1; the queue
+   is q[1:] of it (capacity 0) when the append happens, so the append allocates, and the queue is the
+   function's own array from then on.  The invariant (capacity = length for the body of every message node
+   that has a non-placeholder parent child) is a property of the parser, not of this function: the race
+   harness of C09 probes it on every parsed bundle and renders / generates plural messages concurrently
+   under the race detector (go/cmd/soyverif c09), so that a parser change that breaks it fails with a real
+   input.  Tied by name: package, callee, calling function, kind. *)
+Definition reviewed_latent_writes : list (bstr * bstr * bstr * bstr) := Eval vm_compute in [
+  (b "soyhtml", b "ast:(*MsgNode).Placeholder", b "soyhtml:(*state).evalMsgParts", b "callee-writes-through");
+  (b "soyjs", b "ast:(*MsgNode).Placeholder", b "soyjs:(*state).evalMsgParts", b "callee-writes-through")
+].
+Definition reviewed_latent (w : bstr * bstr * bstr * bstr) : bool := site_mem w reviewed_latent_writes.
+
 Definition shared_write_benign (w : bstr * bstr * bstr * bstr) : bool :=
-  let '(_, _, f, k) := w in bstr_eqb f k_registry_add || bstr_eqb k k_capped.
+  let '(_, _, f, k) := w in bstr_eqb f k_registry_add || bstr_eqb k k_capped || reviewed_latent w.
 
 Definition in_pkg (p : bstr) (w : bstr * bstr * bstr * bstr) : bool := let '(d, _, _, _) := w in bstr_eqb d p.
 Definition k_soyjs : bstr := Eval vm_compute in b "soyjs".
